@@ -153,5 +153,15 @@ theorem exec_to_call : Exec sem0 env0 [] graphG emp 4 s2 := by
       (.assign (v := .int 1) (.const (Or.inl ⟨rfl, rfl⟩)) (.cons .name .nil) (Agree.refl _ _)) (by simp [nX1])
   exact .step e3 (n := nDef) (by rfl) (.fndef (ρ := .any) rfl (Agree.refl _ _)) (by simp [nDef])
 
+/-- `g()` as an expression statement, where `g` is a local function that rebinds the nonlocal `x`. -/
+def callN : CNode := .stmt (.expr 5 (.call 6 (.name 7 "g" .load) [] []))
+
+theorem exec_to_mid_W (W : List String) (N : CNode) : Exec sem0 env0 W (graphOf N) emp 3 s1 := by
+  have e1 : Exec sem0 env0 W (graphOf N) emp 1 emp := .start
+  have e2 : Exec sem0 env0 W (graphOf N) emp 2 emp :=
+    .step e1 (n := nArgs) (by rfl) (.args (by exact .nil) (Agree.refl _ _)) (by simp [nArgs])
+  exact .step e2 (n := nX1) (by rfl)
+      (.assign (v := .int 1) (.const (Or.inl ⟨rfl, rfl⟩)) (.cons .name .nil) (Agree.refl _ _)) (by simp [nX1])
+
 end CEx
 end Malt.TypeInf
